@@ -350,7 +350,9 @@ class Terms:
                             except NotConst:
                                 pass
                     if head in f.module.imports or head in f.module.classes or head in f.module.functions:
-                        return ("glob", r)
+                        if not r.startswith(PKG + ".") or r in p.functions or r in p.classes or r in p.modules or isinstance(e.value, ast.Name):
+                            return ("glob", r)
+                        # an attribute of a package constant (TLV.kTLVMethod_Resume.to_bytes): evaluate the base
             base = T(e.value)
             if base[0] == "const":
                 v = base[1]
@@ -494,8 +496,11 @@ class Terms:
         if folded is not None:
             return folded
         # inlining of single-return package functions
-        if depth < self.inline_depth:
-            callees = self.res.resolve_call(f, e, record=False)
+        if depth < self.inline_depth and fn[0] in ("glob", "closure", "attr"):
+            if fn[0] == "closure":
+                callees = [fn[1]]
+            else:
+                callees = self.res.resolve_call(f, e, record=False)
             if len(callees) == 1 and callees[0] in p.functions:
                 g = p.functions[callees[0]]
                 inl = self._inline(g, e, fn, args, kwargs, depth + 1, guard)
